@@ -185,6 +185,11 @@ def run(ck: Check, prog: Program) -> None:
     rf = mprog.func(V20 + '.Request.from_json')
     ck.functions.add(rf.qualname)
     c06._field_guards(ck, mprog, rf)
+    # values taken from the request document are never hashed while they can still be arrays / objects (TypeError out of dispatch)
+    for q_ in ('pjrpc.common.v20' + '.Request.from_json', 'pjrpc.common.v20' + '.BatchRequest.from_json'):
+        hf_ = mprog.func(q_)
+        ck.functions.add(hf_.qualname)
+        c06._hash_uses(ck, mprog, hf_)
     # responses built by dispatch itself (document-level rejections) carry the id null: nothing read from the unvalidated JSON
     from ..flow import Flow as _FlowD
     for r in roles:
